@@ -800,7 +800,7 @@ fn tree_subjects(v: &mut Vec<Subject>, prop: &str, th: bool) {
     let elems: &[&str] = if prop == "C09" { &["u8", "u64"] } else { &["u8", "u16", "u32", "u64", "usize", "u128"] };
     let mut push = |alias: &str, elem: &str, gen: Gen, vm: &str| v.push(Subject::Tree { alias: alias.into(), elem: elem.into(), gen, vmap: vm.into() });
     if prop != "C09" {
-        for g in tiny_all(3, if th { 5 } else { 4 }) {
+        for g in tiny_all(3, if th { 6 } else { 5 }) {
             for &al in &aliases {
                 let huff = al.starts_with('H');
                 for &e in elems {
